@@ -256,7 +256,7 @@ def evaluate(prop, outdir):
         for t, n in tg.items():
             tags[t] = tags.get(t, 0) + n
         for m in mism:
-            if m['tag'] in prop.get('monitor_tags', ()) or (m['impl'] == '2' and m['tag'] in prop.get('panic_is_violation', ())):
+            if m['tag'] in prop.get('monitor_tags', ()) or m['tag'] in prop.get('spec_equal_tags', ()) or (m['impl'] == '2' and m['tag'] in prop.get('panic_is_violation', ())):
                 monitor.append(m)
             else:
                 corr.append(m)
@@ -406,9 +406,9 @@ def main():
     hist = {}
     dn = 0
     for name, m in metas.items():
-        samples += m.get('samples', [])[:4]
+        samples += (m.get('samples') or [])[:4]
         dn += m.get('distinct_nontrivial', 0)
-        for k, c in m.get('histogram', {}).items():
+        for k, c in (m.get('histogram') or {}).items():
             hist[name + ':' + k] = c
     nthm = len(proofs['theorems'])
     coverage = dict(
